@@ -1298,6 +1298,17 @@ class StateEngine(object):
             for results in branch_metadata.results.values():
                 results["terminated"] = "0:" + str(len(results["results"]))
 
+            """
+            The execution may already have ended whilst results were still
+            pending (e.g. a terminated Branch waiting for a retry interval
+            that can't be cancelled). It must not be ended a second time, so
+            just cancel and acknowledge whatever is outstanding.
+            """
+            execution_detail = self.executions.get(execution_arn)
+            if execution_detail and execution_detail.get("status", "RUNNING") != "RUNNING":
+                self.check_pending_results(execution_arn)
+                continue
+
             # Get state_machine from execution_arn for the end_execution call
             split = execution_arn.rpartition(':')
             arn = parse_arn(split[0])
